@@ -383,6 +383,13 @@ def rule_panic(F):
             w = [s[1] for s in sites if s[0] == fn][0]
             if key in PANIC_AUDITED_SITES:
                 reason, pre = PANIC_AUDITED_SITES[key]
+                # an entry excuses the sites that were read, not every later site of the same kind in the same function
+                nsites = len([s for s in sites if s[0].split("::{closure#")[0] == key[2]])
+                if fn == key[2] or not any(s[0] == key[2] for s in sites):
+                    if nsites > PANIC_AUDITED_COUNT.get(key, 1):
+                        res.bad("M-PANIC:%s:%s:%s:more-sites-than-audited" % (kindv, c.rsplit("::", 2)[-1] if c else "", key[2]), w,
+                                "diagnostic path: %d sites of %s%s in %s, the audited table covers %d (%s)"
+                                % (nsites, kindv, (" " + c) if c else "", key[2], PANIC_AUDITED_COUNT.get(key, 1), reason))
                 if pre is None:
                     res.ok()
                 else:
@@ -437,6 +444,18 @@ PANIC_AUDITED_SITES = {
         ("debug_assert!(self.is_empty() || other.is_empty()) in the else branch of `if !self.is_empty() && !other.is_empty()`: a tautology", None),
     ("unwrap", "std::option::Option::unwrap", "source_display::SourceDisplay::fmt"):
         ("`nums_locs.clone().next().unwrap()` after the maximum over the same (cloned) iterator was Some: the iterator is non-empty", None),
+}
+
+
+# number of sites each entry was audited for (counted on the tree the entry was written against); fewer is fine
+PANIC_AUDITED_COUNT = {
+    ("assert:Overflow", "", "error::CompileError::from"): 4,
+    ("assert:Overflow", "", "source_display::SourceDisplay::fmt"): 3,
+    ("assert:Overflow", "", "source_display::line_locations"): 3,
+    ("index", "std::ops::Index::index<str>", "build::whipe_comments"): 2,
+    ("index", "std::ops::Index::index<str>", "source_display::SourceDisplay::fmt"): 1,
+    ("panic", "core::panicking::panic", "grammar_util::Location::intersect"): 1,
+    ("unwrap", "std::option::Option::unwrap", "source_display::SourceDisplay::fmt"): 1,
 }
 
 
